@@ -451,6 +451,8 @@ struct SinkReply {
     nonce: u64,
     len: usize,
     dig: u64,
+    /// what `rqctx.request_body_max_bytes()` told the handler
+    limit: usize,
 }
 
 pub fn check_c11(
@@ -637,6 +639,15 @@ pub fn check_c11(
                 }
                 match serde_json::from_slice::<SinkReply>(&resp.resp.body) {
                     Ok(rep) => {
+                        if rep.limit != *limit {
+                            v.push(Violation {
+                                rule: "c11.effective_limit".into(),
+                                detail: format!(
+                                    "endpoint {ep}: the handler was told its body limit is {} but the effective limit (own override, else the server default) is {}",
+                                    rep.limit, limit
+                                ),
+                            });
+                        }
                         if rep.nonce != rq.nonce || rep.len != *payload_len || rep.dig != *digest {
                             v.push(Violation {
                                 rule: "c11.delivered_not_intact".into(),
